@@ -385,7 +385,7 @@ func buildResourceTrafficShapingController(res string, resRules []*Rule, oldResT
 	// very same fields. Only rules that continue no old rule by ID are matched by their fields alone.
 	idInOld := make(map[string]bool, len(oldResTcs))
 	for _, oldTc := range oldResTcs {
-		idInOld[oldTc.BoundRule().ID] = true
+		idInOld[loadedIDOf(oldTc)] = true
 	}
 	spokenFor := make(map[string]bool, len(resRules))
 	for _, rule := range resRules {
@@ -405,10 +405,10 @@ func buildResourceTrafficShapingController(res string, resRules []*Rule, oldResT
 				if reserved[oldTc] || !oldTc.BoundRule().Equals(rule) {
 					continue
 				}
-				if pass == 0 && oldTc.BoundRule().ID != rule.ID {
+				if pass == 0 && loadedIDOf(oldTc) != rule.ID {
 					continue
 				}
-				if pass == 1 && spokenFor[oldTc.BoundRule().ID] {
+				if pass == 1 && spokenFor[loadedIDOf(oldTc)] {
 					continue
 				}
 				reserved[oldTc] = true
@@ -427,7 +427,7 @@ func buildResourceTrafficShapingController(res string, resRules []*Rule, oldResT
 			continue
 		}
 		for _, oldTc := range oldResTcs {
-			if !reserved[oldTc] && keptFor[oldTc] == nil && oldTc.BoundRule().ID == rule.ID && oldTc.BoundRule().IsStatReusable(rule) {
+			if !reserved[oldTc] && keptFor[oldTc] == nil && loadedIDOf(oldTc) == rule.ID && oldTc.BoundRule().IsStatReusable(rule) {
 				keptFor[oldTc] = rule
 				break
 			}
@@ -466,6 +466,10 @@ func buildResourceTrafficShapingController(res string, resRules []*Rule, oldResT
 		if equalIdx >= 0 {
 			equalOldTC := oldResTcs[equalIdx]
 			newTcsOfRes = append(newTcsOfRes, equalOldTC)
+			// The rule object in the controller stays; the ID it goes by from now on is the new rule's.
+			if c, ok := equalOldTC.(interface{ setLoadedRuleID(string) }); ok {
+				c.setLoadedRuleID(rule.ID)
+			}
 			// remove old tc from old resTcs
 			oldResTcs = append(oldResTcs[:equalIdx], oldResTcs[equalIdx+1:]...)
 			continue
